@@ -201,6 +201,60 @@ func rejectsNonEmptyQuery(p *Prog, fn *ssa.Function, fold func(ssa.Value, *PathC
 	return okAll, len(rawKeys) > 0 || len(helperOK) > 0
 }
 
+// storedIntoField: v is the one value its function stores into one of the folded fields (every store to
+// that field in the function stores v itself): the field, else nil.
+func storedIntoField(v ssa.Value, vals map[*types.Var]int64) *types.Var {
+	in, ok := v.(ssa.Instruction)
+	var fn *ssa.Function
+	if ok {
+		fn = in.Parent()
+	} else if pa, isP := v.(*ssa.Parameter); isP {
+		fn = pa.Parent()
+	}
+	if fn == nil {
+		return nil
+	}
+	var found *types.Var
+	clean := true
+	eachInstr(fn, func(b *ssa.BasicBlock, i int, ins ssa.Instruction) {
+		st, isSt := ins.(*ssa.Store)
+		if !isSt {
+			return
+		}
+		fa, isFA := st.Addr.(*ssa.FieldAddr)
+		if !isFA {
+			return
+		}
+		f := fieldOfAddr(fa)
+		if _, folded := vals[f]; !folded {
+			return
+		}
+		if stripConvs(st.Val) == v {
+			if found != nil && found != f {
+				clean = false
+			}
+			found = f
+		} else if found == f {
+			clean = false
+		}
+	})
+	if !clean || found == nil {
+		return nil
+	}
+	// every store to that field stores v
+	eachInstr(fn, func(b *ssa.BasicBlock, i int, ins ssa.Instruction) {
+		if st, isSt := ins.(*ssa.Store); isSt {
+			if fa, isFA := st.Addr.(*ssa.FieldAddr); isFA && fieldOfAddr(fa) == found && stripConvs(st.Val) != v {
+				clean = false
+			}
+		}
+	})
+	if !clean {
+		return nil
+	}
+	return found
+}
+
 func foldFields(vals map[*types.Var]int64) func(cond ssa.Value, c *PathCtx) (bool, bool) {
 	var fold func(cond ssa.Value, c *PathCtx) (bool, bool)
 	predCache := map[*ssa.Function][2]bool{}
@@ -291,6 +345,11 @@ func foldFields(vals map[*types.Var]int64) func(cond ssa.Value, c *PathCtx) (boo
 			return false, false
 		}
 		_, f := loadedField(deref(stripConvs(x)))
+		if f == nil {
+			// a local that is what the function stores into the folded field (the structure is assembled at the
+			// end from locals): the comparison is about the field's value all the same
+			f = storedIntoField(stripConvs(x), vals)
+		}
 		k, have := vals[f]
 		if f == nil || !have {
 			return false, false
@@ -477,7 +536,7 @@ func runC17(r *Run) {
 				return false
 			}
 			s, isS := constString(b.Y)
-			return isS && s == "" && valueIsLoadOfField(b.X, hostF)
+			return isS && s == "" && (valueIsLoadOfField(b.X, hostF) || storedIntoField(stripConvs(b.X), map[*types.Var]int64{hostF: 0}) == hostF)
 		}) {
 			b := ci.Val.(*ssa.BinOp)
 			nonEmpty := ci.OnFalse
